@@ -293,6 +293,10 @@ func streamExec(r *Run, stream []byte, want []*MV, desc string, sc streamCfg) {
 	var consPanic *WalkPanic
 
 	oldGC := debug.SetGCPercent(-1)
+	// no collection while a run is in flight (pool contents stay a function of the run), except under memory
+	// pressure: every chunk owns a 10 MiB buffer, a few hundred of them must not exhaust the address-space limit
+	oldLimit := debug.SetMemoryLimit(3 << 30)
+	defer debug.SetMemoryLimit(oldLimit)
 	oldProcs := runtime.GOMAXPROCS(gmp)
 	leak, harness := runBubble(r.T, func(t *testing.T) {
 		s := &Sched{classify: func(ev simdjson.SimEvent, h simdjson.SimHandle, arg int) (bool, string) {
